@@ -718,6 +718,33 @@ static void gen_simd(hctx* h) {
         }
     }
 
+    /* 2b'. the memcpy / memset helpers at sizes where an implementation might switch strategy (non-temporal stores, which
+     * need an aligned destination, from a few hundred KiB on), every destination alignment class modulo 64: the data is a
+     * function of (n, variant), judged against the byte loop; a fault ends the run with this line unfinished */
+    {
+        static const size_t bigs[] = { (256u << 10) - 1, 256u << 10, (256u << 10) + 17, (1u << 20) + 3 };
+        static const int dmis[] = { 0, 16, 32, 48, 1, 31, 8 };
+        for (unsigned bi = 0; bi < (h->thorough ? 4u : 3u); bi++) for (int mi = 0; mi < 7; mi++) for (int var = 1; var < 4; var++) {
+            size_t n = bigs[bi]; int mis = dmis[mi];
+            fprintf(h->out, "simd_mem_big n=%zu dmis=%d smis=%d var=%d", n, mis, (mi * 5) % 64, var); h_call(h);
+            uint8_t* rb = NULL; size_t asz = (n + 192 + 63) / 64 * 64;
+            uint8_t* sb = (uint8_t*)aligned_alloc(64, asz); uint8_t* db = (uint8_t*)aligned_alloc(64, asz);
+            if (!sb || !db) { fprintf(h->out, " | skipped=1 triv=1\n"); h->n_lines++; free(sb); free(db); free(rb); continue; }
+            uint8_t* sp = sb + 64 + (mi * 5) % 64; uint8_t* dp = db + 64 + mis;
+            for (size_t i = 0; i < n; i++) sp[i] = (uint8_t)(i * 131u + (unsigned)var);
+            memset(db, 0xA5, n + 192);
+            if (var == 1) carquet_sse_memcpy_small(dp, sp, n); else if (var == 2) carquet_avx2_memcpy(dp, sp, n); else carquet_avx512_memcpy(dp, sp, n);
+            int okc = memcmp(dp, sp, n) == 0;
+            for (int g = 0; g < 64; g++) if (dp[-1 - g] != 0xA5 || (dp + n + g < db + n + 192 && dp[n + g] != 0xA5)) okc = 0;
+            memset(db, 0xA5, n + 192);
+            if (var == 1) carquet_sse_memset_small(dp, 0x3C, n); else if (var == 2) carquet_avx2_memset(dp, 0x3C, n); else carquet_avx512_memset(dp, 0x3C, n);
+            int oks = 1; for (size_t i = 0; i < n; i++) if (dp[i] != 0x3C) { oks = 0; break; }
+            for (int g = 0; g < 64; g++) if (dp[-1 - g] != 0xA5 || (dp + n + g < db + n + 192 && dp[n + g] != 0xA5)) oks = 0;
+            fprintf(h->out, " | p_memcpy_eq_scalar=%d p_memset_eq_scalar=%d\n", okc, oks);
+            h->n_lines++; free(sb); free(db); free(rb);
+        }
+    }
+
     /* 2c. directed counts around every block width and cascade boundary up to 4 x 64 bytes, misaligned starts */
     {
         static const int64_t LQ[] = { 127, 128, 129, 255, 256, 257, 383, 511, 512, 513 };
@@ -784,7 +811,7 @@ static void gen_simd(hctx* h) {
 /* ---- replay -------------------------------------------------------------------------------- */
 static int replay_simd(hctx* h, const h_line* l) {
     if (strncmp(l->op, "simd_", 5)) return 0;
-    if (!strcmp(l->op, "simd_coverage") || !strcmp(l->op, "simd_count_big")) {
+    if (!strcmp(l->op, "simd_coverage") || !strcmp(l->op, "simd_count_big") || !strcmp(l->op, "simd_mem_big")) {
         fprintf(h->out, "# %s lines summarise a whole run; re-run the generator to reproduce\n", l->op);
         return 1;
     }
